@@ -40,7 +40,15 @@ func showEntries(es []pgdump.TupleEntry) string {
 func init() {
 	// heapscan: args = visibleOnly, file
 	core.Register("heapscan", func(args []string) string {
-		return showEntries(pgdump.ReadTuples(unhex(args[1]), args[0] == "1"))
+		data := unhex(args[1])
+		out := showEntries(pgdump.ReadTuples(data, args[0] == "1"))
+		if args[0] == "1" {
+			// ParseFile is documented as the visible-only scan
+			if pf := showEntries(pgdump.ParseFile(data)); pf != out {
+				return "PARSEFILE-DIFFERS:" + pf
+			}
+		}
+		return out
 	})
 	// infomask: one page; classification string of all tuples | infomasks of the visible ones
 	core.Register("infomask", func(args []string) string {
@@ -70,5 +78,35 @@ func init() {
 	core.Register("heapmut", func(args []string) string {
 		pgdump.ReadTuples(unhex(args[1]), args[0] == "1")
 		return "ok"
+	})
+}
+
+func init() {
+	core.Register("pagedirect", func(args []string) string {
+		return showEntries(pgdump.ParsePage(unhex(args[0])))
+	})
+	core.Register("tupledirect", func(args []string) string {
+		t := pgdump.ParseHeapTuple(unhex(args[0]))
+		if t == nil {
+			return "nil"
+		}
+		return showEntry(pgdump.TupleEntry{Tuple: t})
+	})
+	// heapconcat: the scan of a ++ b (the SPEC column is the scan of a followed by the shifted scan of b)
+	core.Register("heapconcat", func(args []string) string {
+		a, b := unhex(args[1]), unhex(args[2])
+		whole := make([]byte, 0, len(a)+len(b))
+		whole = append(append(whole, a...), b...)
+		vis := args[0] == "1"
+		out := showEntries(pgdump.ReadTuples(whole, vis))
+		// the law, checked on the implementation's own outputs as well
+		ra, rb := pgdump.ReadTuples(a, vis), pgdump.ReadTuples(b, vis)
+		for i := range rb {
+			rb[i].PageOffset += len(a)
+		}
+		if parts := showEntries(append(ra, rb...)); parts != out {
+			return "CONCAT-LAW-BROKEN:" + out
+		}
+		return out
 	})
 }
